@@ -58,17 +58,42 @@ def g_formula(draw):
     how = gen.presentation(draw)
     if how == "int":
         X = gen.integral(X)
-    return {"p": p, "X": X, "kind": kind, "chunks": chunks, "dask": gen.boolean(draw), "how": how}
+    # the machine's configuration (trainer kind, which parameters a later training would update) has no say in what
+    # the statistics of a data set are
+    cfg = {"trainer": gen.choice(draw, ["ml", "ml", "map"]),
+           "upd": [bool(b) for b in gen.choice(draw, [(1, 0, 0), (1, 1, 1), (0, 0, 0), (0, 1, 0), (1, 0, 1)])]}
+    return {"p": p, "X": X, "kind": kind, "chunks": chunks, "dask": gen.boolean(draw), "how": how, "machine_cfg": cfg}
+
+
+def machine_for(case):
+    """The case's GMM as an ML machine or as a MAP machine (adapted from a prior with other parameters), with the
+    generated update switches; the visible weights, means and variances are the case's."""
+    p, cfg = case["p"], case.get("machine_cfg")
+    if not cfg:
+        return sut.make_gmm(p)
+    kw = dict(update_means=cfg["upd"][0], update_variances=cfg["upd"][1], update_weights=cfg["upd"][2])
+    if cfg["trainer"] == "ml":
+        return sut.make_gmm(p, **kw)
+    prior = sut.make_gmm(dict(p, means=np.array(p["means"]) * 0.9 + 0.1))
+    g = sut.GMMMachine(n_gaussians=int(p["C"]), trainer="map", ubm=prior, **kw)
+    fl = p["floors"]
+    g.variance_thresholds = np.array(fl, dtype=float) if np.ndim(fl) else float(fl)
+    g.means = np.array(p["means"], dtype=float)
+    g.variances = np.array(p["variances"], dtype=float)
+    g.weights = np.array(p["weights"], dtype=float)
+    return g
 
 
 @REG.obligation("stats_formula", g_formula, quick=500, thorough=12000)
 def c_formula(ctx, case):
     """acc_stats == responsibility-weighted moments from independently computed posteriors."""
     p, X = case["p"], case["X"]
-    g = sut.make_gmm(p)
+    g = machine_for(case)
     want = ref.gmm_stats(X, p["weights"], p["means"], p["variances"])
     soft = bool((want["post"].max(axis=0) < 0.999).any())
-    ctx.note(p["C"] >= 2 and soft, "dask" if case["dask"] else "numpy", "soft-posteriors" if soft else None)
+    cfg = case.get("machine_cfg") or {"trainer": "ml", "upd": [1, 0, 0]}
+    ctx.note(p["C"] >= 2 and soft, "dask" if case["dask"] else "numpy", "soft-posteriors" if soft else None,
+             "machine:%s upd:%d%d%d" % ((cfg["trainer"],) + tuple(int(u) for u in cfg["upd"])))
     if case["dask"]:
         s = _sd(g.acc_stats(sut.dask_rows(X, case["chunks"])))
     else:
